@@ -24,14 +24,14 @@ for out in sorted(glob.glob('/tmp/seed_C*_out')):
         json.dump(meta, open(os.path.join(dst, 'meta.json'), 'w'), indent=1)
 # batch 7: one agent per source file (/tmp/seed_F<k>_out/mut7<x>); the property is the first one named in meta.json
 import re
-for out in sorted(glob.glob('/tmp/seed_[FGHJKLMNP]*_out')):
+for out in sorted(glob.glob('/tmp/seed_[FGHJKLMNPQ]*_out')):
     fk = os.path.basename(out)[5:7]
     for m in sorted(glob.glob(out + '/mut*')):
         if not os.path.exists(m + '/patch.diff'):
             continue
         meta = json.load(open(m + '/meta.json'))
         prop = re.findall(r'C\d\d', meta.get('property', ''))[0]
-        sid = '%s-mut%s%s%s' % (prop, {'F': '7', 'G': '8', 'H': '9', 'J': '10', 'K': '11', 'L': '12', 'M': '13', 'N': '14', 'P': '15'}[fk[0]], fk, os.path.basename(m)[-1])
+        sid = '%s-mut%s%s%s' % (prop, {'F': '7', 'G': '8', 'H': '9', 'J': '10', 'K': '11', 'L': '12', 'M': '13', 'N': '14', 'P': '15', 'Q': '16'}[fk[0]], fk, os.path.basename(m)[-1])
         dst = os.path.join(VERIF, 'seeded', sid)
         os.makedirs(dst, exist_ok=True)
         for f in ('patch.diff', 'demo.py'):
